@@ -332,11 +332,23 @@ func (p *printer) expr1(e *Expr) {
 	case KPred:
 		p.sb.WriteString("&")
 		p.sp("")
+		code := PredCode(e)
 		if p.o.PredText != nil {
-			p.sb.WriteString("{ " + p.o.PredText(e) + " }")
-		} else {
-			p.sb.WriteString("{ " + PredCode(e) + " }")
+			code = p.o.PredText(e)
 		}
+		// a predicate is any Go expression: spell some with a binary operator at the top (same value, the
+		// operand still evaluated exactly once), which the generator has to keep together when it negates it
+		switch p.v(10) {
+		case 0:
+			code = "false || " + code
+		case 1:
+			code = code + " || false"
+		case 2:
+			code = "true && " + code
+		case 3:
+			code = code + " && true"
+		}
+		p.sb.WriteString("{ " + code + " }")
 		p.sp(" ")
 	case KState:
 		code := fmt.Sprintf("p.note(%d, int(position))", e.ID)
